@@ -14,7 +14,7 @@ from . import msgs as M
 
 TRUSTED = ['S-REG: register-file model written from MODBUS AP v1.1b3 (four tables, FC->table map, mask-write formula, write-before-read for FC 23)']
 ASSUMPTIONS = ['tables are backed by distinct block objects unless a unit says otherwise (A6); a layout sharing one block between tables changes both views together because contracts speak about block objects',
-               'contexts over four sequential blocks or four sparse blocks (arbitrary key sets); mixed layouts are not examined']
+               'contexts over four sequential blocks, four sparse blocks (arbitrary key sets), or one block shared by the two bit tables and one by the two register tables; other mixtures are not examined']
 
 CONTRACTS = S.SLAVE_CONTRACTS
 
@@ -34,7 +34,8 @@ def cell(ctx, t, a):
 def tables_unchanged(E, ctx, before, except_table=None):
     cs = []
     for t in 'dcih':
-        if t != except_table:
+        # a table backed by the very block object of the written table is that table (shared layout): it changes with it
+        if t != except_table and not (except_table is not None and ctx.store[t] is ctx.store[except_table]):
             cs.append(E.same_state(ctx.store[t], before.store[t]))
     cs.append(L.Iff(ctx.zero_mode, before.zero_mode))
     return L.And(*cs)
@@ -62,7 +63,7 @@ def read_lemma(fc):
     t = S.TABLE_OF_FC[fc]
 
     def lemma(E):
-        ctx = S.slave_context(E, layout=E.choice('layout', S.LAYOUTS))
+        ctx = S.slave_context(E, layout=E.choice('layout', S.LAYOUTS + ('shared',)))
         a, c = E.int('address', 0, 65536), E.int('count', 0, 65536)
         req = M.request(E, fc, address=a, count=c)
         before = E.clone(ctx)
@@ -80,7 +81,7 @@ def write_single_lemma(fc):
     t = S.TABLE_OF_FC[fc]
 
     def lemma(E):
-        ctx = S.slave_context(E, layout=E.choice('layout', S.LAYOUTS))
+        ctx = S.slave_context(E, layout=E.choice('layout', S.LAYOUTS + ('shared',)))
         a = E.int('address', 0, 65536)
         v = E.bool('value') if fc == 5 else E.int('value', 0, 65536)
         req = M.request(E, fc, address=a, value=v)
@@ -100,7 +101,7 @@ def write_multi_lemma(fc):
     t = S.TABLE_OF_FC[fc]
 
     def lemma(E):
-        ctx = S.slave_context(E, layout=E.choice('layout', S.LAYOUTS))
+        ctx = S.slave_context(E, layout=E.choice('layout', S.LAYOUTS + ('shared',)))
         a = E.int('address', 0, 65536)
         if fc == 15:
             vals = E.bools('values', maxlen=2040)
@@ -123,7 +124,7 @@ def write_multi_lemma(fc):
 
 
 def mask_write_lemma(E):
-    ctx = S.slave_context(E, layout=E.choice('layout', S.LAYOUTS))
+    ctx = S.slave_context(E, layout=E.choice('layout', S.LAYOUTS + ('shared',)))
     a, am, om = E.int('address', 0, 65536), E.int('and_mask', 0, 65536), E.int('or_mask', 0, 65536)
     req = M.request(E, 22, address=a, and_mask=am, or_mask=om)
     before = E.clone(ctx)
@@ -142,7 +143,7 @@ def mask_write_lemma(E):
 
 
 def rwm_lemma(E):
-    ctx = S.slave_context(E, layout=E.choice('layout', S.LAYOUTS))
+    ctx = S.slave_context(E, layout=E.choice('layout', S.LAYOUTS + ('shared',)))
     ra, rc, wa = E.int('read_address', 0, 65536), E.int('read_count', 0, 65536), E.int('write_address', 0, 65536)
     regs = E.ints('write_registers', 0, 65536, maxlen=127)
     n = L.length(regs)
@@ -163,7 +164,7 @@ def rwm_lemma(E):
 def table_map(E):
     """function code -> table, against the spec table (finite, exhaustive)"""
     fc = E.choice('fc', sorted(S.TABLE_OF_FC))
-    ctx = S.slave_context(E, layout=E.choice('layout', S.LAYOUTS))
+    ctx = S.slave_context(E, layout=E.choice('layout', S.LAYOUTS + ('shared',)))
     E.prove('fx-mapper', E.method(ctx, 'decode', fc) == S.TABLE_OF_FC[fc])
 
 
